@@ -628,6 +628,9 @@ func (w *Worker) load(p Ptr) Value {
 	if p.Slot == nil {
 		w.runtimePanic("invalid memory address or nil pointer dereference")
 	}
+	if w.sched != nil {
+		w.raceAccess(p.Slot, false)
+	}
 	return copyVal(*p.Slot)
 }
 
@@ -663,6 +666,9 @@ func (w *Worker) storeInto(slot *Value, v Value) {
 	}
 	if w.merging > 0 {
 		w.journal = append(w.journal, journalEnt{slot, *slot})
+	}
+	if w.sched != nil {
+		w.raceAccess(slot, true)
 	}
 	*slot = copyVal(v)
 }
@@ -1122,6 +1128,10 @@ type pendingGo struct {
 }
 
 func (w *Worker) spawn(fn Value, args []Value) {
+	if w.sched != nil {
+		w.spawnSched(fn, args)
+		return
+	}
 	if w.merging > 0 {
 		panic(mergeAbort{"go inside merge"})
 	}
@@ -1134,6 +1144,10 @@ func (w *Worker) spawn(fn Value, args []Value) {
 }
 
 func (w *Worker) chanSend(ch *ChanV, v Value) {
+	if w.sched != nil {
+		w.chanSendSched(ch, v)
+		return
+	}
 	if ch == nil {
 		panic(unsupported("send on nil channel"))
 	}
@@ -1144,6 +1158,9 @@ func (w *Worker) chanSend(ch *ChanV, v Value) {
 }
 
 func (w *Worker) chanRecv(ch *ChanV, elem types.Type) (Value, bool) {
+	if w.sched != nil {
+		return w.chanRecvSched(ch, elem)
+	}
 	if ch == nil {
 		panic(unsupported("receive on nil channel"))
 	}
@@ -1159,7 +1176,10 @@ func (w *Worker) chanRecv(ch *ChanV, elem types.Type) (Value, bool) {
 }
 
 func (w *Worker) selectOp(instr *ssa.Select, fr *frame) Value {
-	panic(unsupported("select statement"))
+	if w.sched != nil {
+		return w.selectSched(instr, fr)
+	}
+	panic(unsupported("select statement (no scheduler: the harness did not call verifSched)"))
 }
 
 func (w *Worker) panicMessage(tp targetPanic) string {
